@@ -106,6 +106,49 @@ where
     Ok(first_hint)
 }
 
+/// Variant for iterators whose lower bound is allowed to be smaller than the count (std's `Scan`
+/// reports 0): the upper bound - the one the trusted consumers read - must equal the count.
+pub fn hint_law_upper<I, B>(name: &str, build: B, max_pops: usize) -> Result<usize, Fail>
+where
+    I: Iterator,
+    B: Fn() -> I,
+{
+    let mut first_hint = 0usize;
+    for p in 0..=max_pops {
+        let mut it = build();
+        let mut popped = 0;
+        for _ in 0..p {
+            if it.next().is_none() {
+                break;
+            }
+            popped += 1;
+        }
+        if popped < p {
+            break;
+        }
+        let (lo, hi) = it.size_hint();
+        let h = match hi {
+            Some(h) => h,
+            None => return fail(format!("{}:no-upper-bound", name), format!("{}: size_hint {:?} has no upper bound after {} pops", name, (lo, hi), p)),
+        };
+        let cap = h.saturating_add(CAP_EXTRA);
+        let mut count = 0usize;
+        while count <= cap {
+            if it.next().is_none() {
+                break;
+            }
+            count += 1;
+        }
+        if count != h || lo > count {
+            return fail(format!("{}:hint!=count{}", name, if p == 0 { "" } else { ":after-pops" }), format!("{}: after {} front pops size_hint = ({}, Some({})) but {} items follow", name, p, lo, h, count));
+        }
+        if p == 0 {
+            first_hint = h;
+        }
+    }
+    Ok(first_hint)
+}
+
 /// Same for double-ended iterators with a script of front (true) / back (false) pops.
 pub fn hint_law_bi<I, B>(name: &str, build: B, script: &[bool]) -> Result<usize, Fail>
 where
